@@ -1,7 +1,7 @@
 """C13 — entropy, KL, conditional entropy, mutual information."""
 from .condfam import *
 PROPERTY = "C13"
-LEAN_MODULES = ["GT.Props.C13"]
+LEAN_MODULES = ["GT.Props.C13", "GT.Props.C13Id"]
 ASSUMPTIONS = ["float64 rounding outside the theorems; inputs with condition number <= 1e4"]
 
 
